@@ -1331,7 +1331,7 @@ class ClearCtx(JobCtx):
 
 class JobClear(FSContract):
     target = f"{JOB}.Job.clear"
-    properties = ("C03", "C11")
+    properties = ("C03", "C10", "C11")
     ctx_class = ClearCtx
     shard_bits = 2
 
@@ -1423,7 +1423,7 @@ def stub_job_clear(interp, b):
 
 class JobReset(FSContract):
     target = f"{JOB}.Job.reset"
-    properties = ("C03", "C11")
+    properties = ("C03", "C10", "C11")
     callees = {f"{JOB}.Job.clear": stub_job_clear, f"{JOB}.Job.init": stub_job_init}
 
     def setup(self, interp, case):
